@@ -77,6 +77,13 @@ func c05paths() []c05path {
 			}
 		}
 	}
+	// two remote destination nodes (three nodes): every one of them must have the message before the acknowledgement
+	for _, fr := range []bool{false, true} {
+		for _, s := range [][]string{{"pub1"}, {"pub0", "pub1"}, {"pub2", "rel-pending"}, {"pub1", "pub1-repeat-dup"}, {"pub1", "pub2", "rel-pending"}} {
+			out = append(out, c05path{"two-remotes", false, fr, 0, s, false})
+			out = append(out, c05path{"local+two-remotes", false, fr, 0, s, false})
+		}
+	}
 	// the publishing node is stopped while the remote write of the last event is in flight
 	for _, pl := range []string{"remote", "both"} {
 		for _, s := range [][]string{{"pub1"}, {"pub0", "pub1"}, {"pub2", "rel-pending"}, {"pub1", "pub2", "rel-pending"}} {
@@ -92,13 +99,17 @@ func TestC05StoreBeforeAck(t *testing.T) {
 		func(t *testing.T, i int, rep *vk.Report) {
 			p := paths[i]
 			RunBubble(t, fmt.Sprintf("p%d", i), func(t *testing.T) {
-				w := NewWorld(t, 2)
+				nn := 2
+				if strings.Contains(p.Placement, "two-remotes") {
+					nn = 3
+				}
+				w := NewWorld(t, nn)
 				defer w.Close()
 				viol := func(sig, format string, a ...any) {
 					rep.Violate(vk.Violation{Sig: sig, Msg: fmt.Sprintf("subscribers=%s localFail=%v remoteFail=%v from event %d, script %v: ", p.Placement, p.FailLocal, p.FailRem, p.FaultFrom, p.Events) + fmt.Sprintf(format, a...), Replay: p})
 				}
 				var dest []uint64
-				if p.Placement == "local" || p.Placement == "both" {
+				if p.Placement == "local" || p.Placement == "both" || p.Placement == "local+two-remotes" {
 					c := w.NewClient("sub-local", 1, AckAll)
 					c.Connect(ConnectOpts{ClientID: "sub-local", KeepAlive: 600})
 					c.Subscribe(1, 1, "t/#")
@@ -109,6 +120,14 @@ func TestC05StoreBeforeAck(t *testing.T) {
 					c.Connect(ConnectOpts{ClientID: "sub-remote", KeepAlive: 600})
 					c.Subscribe(1, 1, "t/#")
 					dest = append(dest, 2)
+				}
+				if nn == 3 {
+					for _, n3 := range []int{2, 3} {
+						c := w.NewClient(fmt.Sprintf("sub-remote%d", n3), n3, AckAll)
+						c.Connect(ConnectOpts{ClientID: c.Name, KeepAlive: 600})
+						c.Subscribe(1, 1, "t/#")
+						dest = append(dest, uint64(n3))
+					}
 				}
 				// a bystander subscription that never matches
 				by := w.NewClient("bystander", 2, AckAll)
@@ -279,7 +298,7 @@ func TestC05StoreBeforeAck(t *testing.T) {
 						perNode[le.Node]++
 					}
 					remoteBlocked := (faultsOn && p.FailRem) || shutdownFaulty(k)
-					for _, n := range []uint64{1, 2} {
+					for _, n := range []uint64{1, 2, 3} {
 						want := 0
 						if has(dest, n) {
 							want = 1
@@ -294,7 +313,10 @@ func TestC05StoreBeforeAck(t *testing.T) {
 					}
 					wantRPC := 0
 					if has(dest, 2) {
-						wantRPC = 1
+						wantRPC++
+					}
+					if has(dest, 3) {
+						wantRPC++
 					}
 					if len(newRPC) != wantRPC {
 						viol("c05-rpc-count:"+evKind(ev), "event %d (%s): %d inter-node call(s), expected %d", k, ev, len(newRPC), wantRPC)
